@@ -33,6 +33,9 @@ def build(tier):
     src += hgen.cond("mismatch", "c1: int, c2: int, n_body: int, i0: int", [f"0 <= c1 < {len(L.CODES)} and 0 <= c2 < {len(L.CODES)}", "1 <= n_body <= 2", f"0 <= i0 < {4 if q else nl}"],
                      "L.mismatch(c1, c2, n_body, i0)", sig="hb.KEY")
     conds += [Cond("mismatch", "prop", T, group="mismatch"), Cond("mismatch__twin", "twin", 40, group="mismatch")]
+    src += hgen.cond("mismatch_middle", "c1: int, c2: int, pos: int, n_lines: int, dash: bool", [f"0 <= c1 < {len(L.CODES)} and 0 <= c2 < {len(L.CODES)}", "1 <= pos <= 3 and 3 <= n_lines <= 5"],
+                     "L.mismatch_middle(c1, c2, pos, n_lines, dash)", sig="hb.KEY")
+    conds += [Cond("mismatch_middle", "prop", T, group="mismatch"), Cond("mismatch_middle__twin", "twin", 40, group="mismatch")]
     src += hgen.cond("matches", "code: str, mask: str", ["len(code) == 3 and code.isascii() and code.isdigit()", f"len(mask) <= {3 if q else 4} and mask.isascii()"],
                      "L.matches(code, mask)")
     conds += [Cond("matches", "prop", T, group="matches"), Cond("matches__twin", "twin", 40, group="matches")]
@@ -59,7 +62,7 @@ def build(tier):
         bounds={
             "round trip": f"code in {L.CODES[:nc]}; 1..3 lines, each from the {nlq}-entry line universe {L.LINES[:nlq]} (Mode A at line level, exhaustive); single-line / multi-line / listing style; utf-8 and latin-1; a sentinel reply follows (desynchronisation check)",
             "free lines": f"Mode S search only: two free Unicode lines of length <= {n}",
-            "mismatch": "final line with a different code from the code universe, 1..2 lines before it",
+            "mismatch": "final line with a different code from the code universe, 1..2 lines before it (rejected AND the sentinel still decodes); a middle line (position 1..3 of 3..5 lines, as continuation or as terminating line) with a different code: rejected",
             "Code.matches": f"code = any three ASCII digits (symbolic string), mask = any ASCII string of length <= {3 if q else 4} (symbolic)",
             "check_codes": "code from the code universe, two masks from a 12-entry mask universe (its exception formats the strings, which forces realisation)",
             "command loop": "0..2 wait replies, final code from the universe, 6 expected masks",
@@ -67,7 +70,7 @@ def build(tier):
             "parse_command": f"16 spellings of the verb, free Unicode argument of length <= {3 if q else 5}",
         },
         outside=["line content outside the universe (free lines are searched, not exhausted: Code(s[:3]) builds a str subclass and realises the characters)",
-                 "a reply whose mismatching line is not its last one (the reply boundary is then undefined)", "non-ASCII mask characters (masks are source literals)",
+                 "resynchronisation after a reply whose mismatching line is not its last one (the reply boundary is then undefined; rejection itself IS checked)", "non-ASCII mask characters (masks are source literals)",
                  "lines with CR/LF or trailing whitespace (the line protocol cannot carry them)"],
         explanation=(
             "CrossHair/z3 executes the real Server.write_response/write_line and Client.parse_line/parse_response/check_codes/command and Code.matches: encoded replies are "
